@@ -243,14 +243,19 @@ func (conn *Conn) send(call *Call) {
 	err := conn.codec.WriteRequest(&ctx, call.Args)
 	if err != nil {
 		conn.mutex.Lock()
-		delete(conn.pending, seq)
-		if call.upgrade.Stream == openStream {
-			delete(conn.streams, seq)
-		}
-		conn.mutex.Unlock()
-		if call != nil {
+		// Only the path that removes the call from the pending table may complete it:
+		// the reader's final sweep or a response may already have done so, and a
+		// stream write never registered.
+		if c, ok := conn.pending[seq]; ok && c == call {
+			delete(conn.pending, seq)
+			if call.upgrade.Stream == openStream {
+				delete(conn.streams, seq)
+			}
+			conn.mutex.Unlock()
 			call.Error = err
 			call.done()
+		} else {
+			conn.mutex.Unlock()
 		}
 	}
 	if isStreaming {
@@ -284,7 +289,8 @@ func (conn *Conn) recv() {
 	if err == io.EOF {
 		err = ErrShutdown
 	}
-	for _, call := range conn.pending {
+	for seq, call := range conn.pending {
+		delete(conn.pending, seq)
 		call.Error = err
 		call.done()
 	}
